@@ -16,7 +16,10 @@ Definition wiring_now : list setup_step :=
 Lemma C14_facts_ok :
   setup_order = Known ["zero-new"; "shared-new"; "nodes-manager"; "catalogue-register"; "zero-start"; "listen"]%string /\
   catalogue_registers_all = Known true /\ restore_replaces = Known true /\ sync_partition_nodes_shape = Known true /\
-  catalogue_apply_shape = Known true /\ start_loads_snapshot = Known true.
+  catalogue_apply_shape = Known true /\ start_loads_snapshot = Known true /\
+  (* the zero group's snapshot carries the catalogue's snapshot whatever it holds (an empty catalogue included), and a
+     restore hands it to the catalogue: the [restore] of the model is what a member brought up to date by a snapshot runs *)
+  shared_snapshot_carries_every_consumer = Known true.
 Proof. repeat split; reflexivity. Qed.
 
 (* the catalogue and the outcome of every entry are functions of the log alone (crun is a function); a node that
